@@ -611,6 +611,28 @@ func c17RealReaders(cfg Config, reader string, d corpus.Doc, res *ShardResult) (
 			}
 		}
 	}
+	if !strings.HasPrefix(reader, "ts") {
+		// a source that can seek but was handed over in the middle of its underlying data (a container whose header
+		// the caller has consumed, one of several documents in a file): the document is what the reader delivers
+		// from its current position on. Not for teletext: the demuxer rewinds a seekable source to its absolute
+		// start by design, which makes the position part of the medium there.
+		prefix := bytes.Repeat([]byte("junk before the document\n"), 80)
+		whole := append(append(append([]byte(nil), prefix...), d.Data...), "junk behind the section"...)
+		br := bytes.NewReader(whole[:len(prefix)+len(d.Data)])
+		if _, err := br.Seek(int64(len(prefix)), io.SeekStart); err == nil {
+			rs = append(rs, rr{"bytes.Reader handed over at offset 2000", br, seekRef})
+		}
+		rs = append(rs, rr{"io.SectionReader", io.NewSectionReader(bytes.NewReader(whole), int64(len(prefix)), int64(len(d.Data))), seekRef})
+		if f, err := os.CreateTemp(cfg.Scratch, "c17-*.bin"); err == nil {
+			defer os.Remove(f.Name())
+			defer f.Close()
+			if _, err := f.Write(whole[:len(prefix)+len(d.Data)]); err == nil {
+				if _, err := f.Seek(int64(len(prefix)), io.SeekStart); err == nil {
+					rs = append(rs, rr{"os.File handed over at offset 2000", f, seekRef})
+				}
+			}
+		}
+	}
 	for _, x := range rs {
 		o := api.ReadOutcome(reader, x.r)
 		res.Evaluations++
